@@ -18,7 +18,7 @@ def classify(c, er, dis, dis_spec):
     if not er["ok"]:
         kind, code = er["err"]
         msg = er["msg"]
-        if k in ("chk_h", "hier") and code == "AttributeError" and "HRUnOp" in msg and any(r["right"][0][0] for r in c["rules"]):
+        if k in ("chk_h", "hier") and "HRUnOp" in msg and "has no attribute" in msg and any(r["right"][0][0] for r in c["rules"]):
             return ("hierarchical-rule:leading-sign:AttributeError",
                     "a hierarchical rule whose right side starts with a sign (`A = - B`, `A = + B + C`) raises AttributeError: 'HRUnOp' object has no "
                     "attribute 'value' (Interpreter.visit_HRBinOp) for check_hierarchy and hierarchy")
@@ -171,7 +171,7 @@ def upstream(ctx, limit):
         runs = {}
         for out in ("invalid", "all", "all_measures"):
             c2 = corpus.Case(c.id, set_output(c.script, out), c.structures, c.datapoints)
-            runs[out] = corpus.run_corpus_case(c2)
+            runs[out] = corpus.run_corpus_case(c2, return_only_persistent=False)
         ctx.count("upstream:" + c.id)
         if not all(r["ok"] for r in runs.values()):
             continue
